@@ -956,7 +956,12 @@ class Interp:
             ssg = src[1] if src else False
             return z3.SignExt(dst[0] - sb, v) if ssg else z3.ZeroExt(dst[0] - sb, v)
         if kind == 'IntToFloat':
-            if is_sym(v): raise Unsupported('symbolic int to float')
+            if is_sym(v):
+                # only the sign survives (used by `x as f64 / 0.0`): a representative of each sign class
+                src = self.operand_prim(fr.fn, op)
+                if src and src[1] and self.ctx.branch(v < 0): return -1.0
+                if self.ctx.branch(v == 0): return 0.0
+                return 1.0
             return float(v)
         if kind == 'FloatToInt':
             dst = prim(ty)
